@@ -74,6 +74,34 @@ Theorem C14_read_equals_fresh_stream : forall calc1 calcx cv,
 Proof. exact equals_fresh_stream. Qed.
 Print Assumptions C14_read_equals_fresh_stream.
 
+(* ... and for EVERY object kind (Stream, MultiStream, phase view, proxy, copy ...): the constructor call
+   [new_op_of p pkg] = ONew (flows of p) (phases of p) T P pkg re-creates the state p of object i, and the read on i
+   equals the read on that new object.  A phase view is a single-phase object, so it needs no side condition; the side
+   condition on MultiStreams only excludes one-row MultiStreams, which the modelled constructor cannot build. *)
+Theorem C14_read_equals_fresh_stream_any : forall calc1 calcx cv,
+  calc1_respects calc1 -> calcx_respects calcx ->
+  forall ops i name flow nophase,
+    let w' := run_world calc1 calcx true cv w0 ops in
+    (i < length (cobjs (w_cs w')))%nat ->
+    let p := pstate_of (w_st w') i in
+    (ps_multi p = true -> length (ps_rows p) <> 1%nat) ->
+    let wn := fst (step calc1 calcx true cv w' (new_op_of p (c_pkg (cobj_of (w_cs w') i)))) in
+    rd_equiv (snd (get_property calc1 calcx w' i name flow nophase))
+             (snd (get_property calc1 calcx wn (length (objs (w_st w'))) name flow nophase)).
+Proof. exact equals_fresh_stream_any. Qed.
+Print Assumptions C14_read_equals_fresh_stream_any.
+
+(* a freshly constructed MultiStream is in exactly the state it was constructed with *)
+Theorem C14_new_multistream_state : forall calc1 calcx sk cv w flows ps T P pkg,
+  length flows <> 1%nat ->
+  let w' := fst (step calc1 calcx sk cv w (ONew flows ps T P pkg)) in
+  pstate_of (w_st w') (length (objs (w_st w))) = mkps true ps flows T P /\
+  (length (objs (w_st w)) = length (cobjs (w_cs w)) ->
+   c_pkg (cobj_of (w_cs w') (length (objs (w_st w)))) = pkg /\
+   length (objs (w_st w')) = length (cobjs (w_cs w'))).
+Proof. exact new_multistream_pstate. Qed.
+Print Assumptions C14_new_multistream_state.
+
 (* the state-side and cache-side object tables stay aligned along every history (model sanity) *)
 Theorem C14_tables_aligned : forall calc1 calcx sk cv ops,
   length (objs (w_st (run_world calc1 calcx sk cv w0 ops))) = length (cobjs (w_cs (run_world calc1 calcx sk cv w0 ops))).
@@ -97,6 +125,24 @@ Print Assumptions C14_vol_fresh.
 Theorem C14_vol_depends_only_on_state : forall cv s i, spec_vol cv s i = vol_of_pstate cv (pstate_of s i).
 Proof. exact spec_vol_pstate. Qed.
 Print Assumptions C14_vol_depends_only_on_state.
+
+(* The domain restriction [run_adm] of C14_vol_fresh cannot be dropped: MultiStream A (phases g, l) links flows and
+   T/P with MultiStream B (phases l, s); B reads vol first, and A then gets B's cached view, built for B's phase tuple,
+   instead of a view for its own phases.  (link_with does not check the phase tuples; the model transcribes it.) *)
+Definition adm_ops : list op :=
+  [ONew [[1; 2; 0]; [0; 1; 4]] [0%nat; 1%nat] 300 101325 O; ONew [[2; 0; 1]; [3; 1; 0]] [1%nat; 2%nat] 320 65536 O;
+   OLink O 1%nat true false true; ORVol 1%nat].
+Theorem C14_vol_adm_needed :
+  run_adm stub_calc1 stub_calcx true stub_cvol w0 adm_ops = false /\
+  let w' := run_world stub_calc1 stub_calcx true stub_cvol w0 adm_ops in
+  (0 < length (cobjs (w_cs w')))%nat /\
+  exists v, snd (step stub_calc1 stub_calcx true stub_cvol w' (ORVol O)) = BVec v /\
+            veqb v (spec_vol stub_cvol (w_st w') O) = false.
+Proof.
+  split; [vm_compute; reflexivity|]. split; [vm_compute; lia|].
+  eexists. split; vm_compute; reflexivity.
+Qed.
+Print Assumptions C14_vol_adm_needed.
 
 (* Source BEFORE the repair: the statement still holds for every history that creates no proxy ... *)
 Theorem C14_read_fresh_without_proxy : forall calc1 calcx cv,
@@ -166,3 +212,18 @@ Example C14_vol_hypotheses :
   veqb (spec_vol stub_cvol (w_st w') O) (spec_vol stub_cvol (w_st w') 1%nat) = false /\
   i_data (imol_of (w_st w') (o_imol (obj_of (w_st w') O))) = i_data (imol_of (w_st w') (o_imol (obj_of (w_st w') 1%nat))).
 Proof. split; [vm_compute; reflexivity|]. split; [vm_compute; lia|]. split; vm_compute; reflexivity. Qed.
+
+(* non-vacuity of C14_read_equals_fresh_stream_any for a MultiStream and for a phase view of it *)
+Definition ms_ops : list op :=
+  [ONew [[1; 2; 0]; [0; 1; 4]] [0%nat; 1%nat] 300 101325 O; OView O 1%nat; ORead O O true false; ORead 1%nat O true false;
+   OSetFlow 1%nat O O 3; OSetHS O false 320].
+Example C14_fresh_any_hypotheses :
+  let w' := run_world stub_calc1 stub_calcx true stub_cvol w0 ms_ops in
+  (1 < length (cobjs (w_cs w')))%nat /\
+  ps_multi (pstate_of (w_st w') O) = true /\ length (ps_rows (pstate_of (w_st w') O)) = 2%nat /\
+  ps_multi (pstate_of (w_st w') 1%nat) = false /\
+  exists v, snd (get_property stub_calc1 stub_calcx w' 1%nat O true false) = RVal v /\ ~ v == 0.
+Proof.
+  split; [vm_compute; lia|]. repeat (split; [vm_compute; reflexivity|]).
+  eexists. split; [vm_compute; reflexivity|]. intros E. unfold Qeq in E. vm_compute in E. discriminate E.
+Qed.
